@@ -80,6 +80,57 @@ def make(pid, macro, profile, handler, hpos, idx, seed, gates=None, hgate=False,
                    solo=is_async and (max(profile) > 1 or hgate), unwind=64 if not is_async else max(12, pp.max_polls() + 4))
 
 
+def make_nocomma(pid, macro, handler, blockpos):
+    """the handler written directly after a branch that ends with a `{ .. }` block, WITHOUT a comma in between (the comma after a block-ended
+    branch is optional): the handler is still recognised as the handler - called as C13 states, its value is the macro's value"""
+    is_async, is_try, is_spawn = KINDS[macro]
+    msg = lambda t: "\"C13[%s]: %s\"" % (pid, t)
+    w = (lambda f_, x: "mk(%s, %s)" % (f_, x)) if is_try else (lambda f_, x: x)
+    if is_async:
+        w0 = lambda f_, x: "ready(%s)" % w(f_, x)
+    else:
+        w0 = w
+    vty = "Result<u8, u8>" if (is_try and is_async) else "u8"
+    upd = "r.map(|v| v ^ q)" if (is_try and is_async) else "v ^ q"
+    arg = "r" if (is_try and is_async) else "v"
+    if blockpos == "initial":
+        last = "{ ev(2); %s }" % w0("o1", "p1")
+        e1 = "p1"
+    else:
+        op = "|>" if (is_try or is_async) else "->"
+        last = "%s %s { ev(2); move |%s: %s| %s }" % (w0("o1", "p1"), op, arg, vty, upd)
+        e1 = "p1 ^ q"
+    hargs = "a: %s, b: %s" % (("u8", "u8") if handler in ("map", "and_then") else (("Result<u8, u8>",) * 2 if is_try else ("u8", "u8")))
+    if handler == "map":
+        hbody = "{ ev(%d); (b, a) }" % H_EV
+    elif handler == "and_then":
+        hbody = "{ ev(%d); mk(hok, b ^ a) }" % H_EV
+        if is_async:
+            hbody = "async move %s" % hbody
+    else:
+        hbody = "{ ev(%d); (b, a) }" % H_EV
+        if is_async:
+            hbody = "async move %s" % hbody
+    text = "%s! { %s, %s %s => move |%s| %s }" % (macro, w0("o0", "p0"), last, handler, hargs, hbody)
+    L = ["names_off();" if is_spawn and not is_async else "", "let o0 = b(); let o1 = b(); let hok = b(); let p0 = u(); let p1 = u(); let q = u();"]
+    if is_async:
+        L.append("let mut fut = %s;" % text)
+        L.append("let r = match poll_once(&mut fut) { Poll::Ready(r) => r, Poll::Pending => { vassert!(false, %s); return; } };" % msg("ready futures: one poll completes"))
+    else:
+        L.append("let r = %s;" % text)
+    if not is_try:
+        L.append("vassert!(r == (%s, p0) && cnt(%d) == 1 && cnt(2) == 1, %s);" % (e1, H_EV, msg("`then` handler after a block-ended branch without a comma: called once with the raw values, its value is the macro's value")))
+    else:
+        ok = "o0 && o1"
+        if handler == "map":
+            L.append("if %s { vassert!(r == Ok((%s, p0)) && cnt(%d) == 1, %s); } else { vassert!(r.is_err() && cnt(%d) == 0, %s); }" % (ok, e1, H_EV, msg("`map` handler after a block-ended branch without a comma: Ok(f(..)) iff every branch succeeded"), H_EV, msg("handler not called on failure")))
+        else:
+            L.append("if %s { vassert!(r == mk(hok, %s ^ p0) && cnt(%d) == 1, %s); } else { vassert!(r.is_err() && cnt(%d) == 0, %s); }" % (ok, e1, H_EV, msg("`and_then` handler after a block-ended branch without a comma: f(..) iff every branch succeeded"), H_EV, msg("handler not called on failure")))
+        L.append("vcover!(!(%s), \"a branch fails\");" % ok)
+    L.append("vcover!(true, \"end reached\");")
+    return Program(pid, text, "    " + "\n    ".join(l for l in L if l), desc=dict(macro=macro, handler=handler, block=blockpos, comma_before_handler=False), group="nocomma/%s" % macro, role=dict(kind=macro, handler=handler), unwind=64 if not is_async else 12, weight=1)
+
+
 def programs(tier, seed):
     ps = []
     i = 0
@@ -108,6 +159,14 @@ def programs(tier, seed):
     for macro, prof, handler, hpos, gates, hgate in alist:
         i += 1
         ps.append(make("p%04d" % i, macro, prof, handler, hpos, i, seed, gates=gates, hgate=hgate, heavy=(tier == "thorough" and (gates or 0) > 0 and hgate)))
+    i = 600
+    for macro in ("join", "try_join", "join_spawn", "try_join_spawn", "join_async", "try_join_async"):
+        for handler in (("map", "and_then") if KINDS[macro][1] else ("then",)):
+            for blockpos in ("initial", "operand"):
+                i += 1
+                if tier == "quick" and (i + seed) % 2 and macro not in ("join", "try_join"):
+                    continue
+                ps.append(make_nocomma("p%04d" % i, macro, handler, blockpos))
     return ps
 
 
